@@ -188,6 +188,7 @@ def base_scenario(rng, index):
     # the destination lives in
     sc['tmpdir'] = rng.choice([None, None, None, 'out', 'in', 'out'])
     # the destination may be a symbolic link to a cart kept elsewhere
+    sc['odd_names'] = rng.random() < 0.2
     sc['dest_symlink'] = prior == 'cart' and route not in (
         'lib-overwrite', 'luafmt-overwrite') and rng.random() < 0.25
     # file arguments spelled relative to a working directory
@@ -268,6 +269,14 @@ BUILD_INTERNAL_FAULTS = (
 # executing one scenario
 
 def _dest_rel(sc):
+    rel = _dest_rel0(sc)
+    if sc.get('odd_names') and rel.startswith('out/'):
+        # spaces and extra dots in directory and file names
+        rel = 'out dir/' + rel[len('out/'):].replace('dest', 'my dest v1.2')
+    return rel
+
+
+def _dest_rel0(sc):
     r = sc['route']
     if (sc.get('fault') or {}).get('kind') == 'ROM-DEST' and r == 'lib':
         # .rom is a recognised cart type whose encoder is not implemented:
